@@ -1,1 +1,401 @@
-"""Probe installers P1..P10 (filled in progressively; see DESIGN.md section 2.1)."""
+"""Probe installers P1..P10 (DESIGN.md section 2.1).  Everything here is attached from outside the repository:
+wrappers re-bound onto the real functions/classes (every alias), and an icontract class invariant.
+
+Rules: a probe never raises into the code it observes; its own failures are counted as `probe_errors`; conditions are no
+stricter than what correct code does; P7/P10 are diagnostic (they count, they never fail a case).
+"""
+
+from __future__ import annotations
+
+import copy
+import functools
+import importlib
+import itertools
+import re
+
+import numpy as np
+
+from .probes import breach, installer, wrap
+
+MAT = {"C02", "C03", "C04", "C05", "C06", "C07", "C08", "C09", "C10", "C17", "C18", "C20", "C12", "C13", "C11"}
+PARSE = {"C01", "C14", "C15", "C16", "C17", "C20"}
+
+
+def guarded(st, fn):
+    """Run a probe body; internal errors of the probe are counted, never propagated."""
+    try:
+        fn()
+    except Exception as e:  # noqa: BLE001
+        st["probe_errors"] = st.get("probe_errors", 0) + 1
+        st.setdefault("probe_error_sample", f"{type(e).__name__}: {str(e)[:160]}")
+
+
+# ------------------------------------------------------------------ P1 resolve-conservation
+
+
+@installer("P1_resolve_conservation", PARSE)
+def p1(st):
+    from formulaic.parser.parser import DefaultOperatorResolver
+
+    orig = DefaultOperatorResolver.resolve
+
+    def collapse(sym):
+        return re.sub(r"[+\-]{2,}", lambda m: "-" if m.group(0).count("-") % 2 else "+", sym)
+
+    def resolve(self, token):
+        yielded = []
+        for item in orig(self, token):
+            yielded.append(item)
+            yield item
+
+        def body():
+            st["evaluations"] += 1
+            got = "".join(ops[0].symbol for _, ops in yielded if ops)
+            want = collapse(token.token)
+            if got != want:
+                breach("P1_resolve_conservation", f"operator token {token.token!r} resolved to symbols {got!r}; conserving the characters (sign runs collapsed by parity) gives {want!r}")
+
+        guarded(st, body)
+
+    DefaultOperatorResolver.resolve = resolve
+
+
+# ------------------------------------------------------------------ P2 operand-conservation
+
+
+@installer("P2_operand_conservation", PARSE)
+def p2(st):
+    mod = importlib.import_module("formulaic.parser.algos.tokens_to_ast")
+    from formulaic.parser.types import ASTNode, Token
+
+    orig = mod.tokens_to_ast
+
+    def leaves(node, acc):
+        if isinstance(node, ASTNode):
+            for a in node.args:
+                leaves(a, acc)
+        elif isinstance(node, Token):
+            acc.append(node)
+        return acc
+
+    def tokens_to_ast(tokens, operator_resolver):
+        toks = list(tokens)
+        ast = orig(iter(toks), operator_resolver)
+
+        def body():
+            st["evaluations"] += 1
+            want = [t.token for t in toks if t.kind is not None and t.kind.value not in ("operator", "context")]
+            got = [t.token for t in leaves(ast, [])] if ast is not None else []
+            if got != want:
+                breach("P2_operand_conservation", f"AST leaves {got} differ from the operand tokens {want}")
+
+        guarded(st, body)
+        return ast
+
+    functools.update_wrapper(tokens_to_ast, orig)
+    mod.tokens_to_ast = tokens_to_ast
+    for name in ("formulaic.parser.algos", "formulaic.parser.parser", "formulaic.utils.constraints", "formulaic.parser.types.formula_parser"):
+        try:
+            m = importlib.import_module(name)
+            if getattr(m, "tokens_to_ast", None) is orig:
+                m.tokens_to_ast = tokens_to_ast
+        except Exception:  # noqa: BLE001
+            pass
+
+
+# ------------------------------------------------------------------ P3 token spans
+
+
+@installer("P3_token_spans", PARSE | MAT)
+def p3(st):
+    mod = importlib.import_module("formulaic.parser.algos.tokenize")
+    orig = mod.tokenize
+
+    def tokenize(formula, *a, **k):
+        last = -1
+        # known finding K3a (C15): an empty quoted token (``, %%, {}) is dropped and shifts the span of the next token
+        empty_name = "``" in formula or "%%" in formula or "{}" in formula
+        for t in orig(formula, *a, **k):
+            st["evaluations"] += 1
+            if empty_name:
+                st["skipped_empty_name"] = st.get("skipped_empty_name", 0) + 1
+                yield t
+                continue
+            try:
+                s, e = t.source_start, t.source_end
+                if s is None or e is None or not (0 <= s <= e < len(formula)) or s <= last:
+                    breach("P3_token_spans", f"{formula!r}: token {t.token!r} span ({s},{e}) out of range or not after the previous token (end {last})")
+                else:
+                    src = formula[s: e + 1]
+                    cands = {src, src[1:] if src[:1] in "`{%" else src}
+                    if t.kind is not None and t.kind.value == "operator":
+                        cands |= {"".join(c.split()) for c in list(cands)}
+                    if t.token not in cands:
+                        breach("P3_token_spans", f"{formula!r}: token {t.token!r} but its span covers {src!r}")
+                    last = e
+            except Exception:  # noqa: BLE001
+                st["probe_errors"] = st.get("probe_errors", 0) + 1
+            yield t
+
+    functools.update_wrapper(tokenize, orig)
+    mod.tokenize = tokenize
+    for name in ("formulaic.parser.algos", "formulaic.parser.parser", "formulaic.utils.constraints", "formulaic.parser.types.formula_parser"):
+        try:
+            m = importlib.import_module(name)
+            if getattr(m, "tokenize", None) is orig:
+                m.tokenize = tokenize
+        except Exception:  # noqa: BLE001
+            pass
+
+
+# ------------------------------------------------------------------ P4 column product
+
+
+def _vec(v):
+    if hasattr(v, "toarray"):
+        return np.asarray(v.toarray(), dtype=float).reshape(-1)
+    if hasattr(v, "to_numpy"):
+        return np.asarray(v.to_numpy(), dtype=float).reshape(-1)
+    return np.asarray(v, dtype=float).reshape(-1)
+
+
+@installer("P4_column_product", MAT)
+def p4(st):
+    from formulaic.materializers import base, narwhals as nwm, pandas as pdm
+
+    def make(orig):
+        def w(self, factors, spec, scale=1):
+            snap = [dict(f) for f in factors]  # the fast path pops from the list
+            out = orig(self, factors, spec=spec, scale=scale)
+
+            def body():
+                st["evaluations"] += 1
+                names, exp = [], {}
+                for prod in itertools.product(*(list(f.items()) for f in reversed(snap))):
+                    prod = prod[::-1]
+                    nm = ":".join(str(p[0]) for p in prod)
+                    names.append(nm)
+                    val = scale
+                    for p in prod:
+                        val = val * _vec(p[1])
+                    exp[nm] = val
+                if list(out) != names:
+                    breach("P4_column_product", f"_get_columns_for_term names {list(out)[:6]} != product of factor keys (first fastest) {names[:6]}")
+                    return
+                for nm in names:
+                    got = _vec(out[nm])
+                    tol = 1e-9 * max(1.0, float(np.nanmax(np.abs(exp[nm]))) if exp[nm].size else 1.0)
+                    if got.shape != np.shape(exp[nm]) or not np.allclose(got, exp[nm], equal_nan=True, rtol=1e-9, atol=tol):
+                        breach("P4_column_product", f"column {nm!r} != scale({scale}) x product of its factor columns")
+                        return
+
+            guarded(st, body)
+            return out
+
+        return w
+
+    for cls in (base.FormulaMaterializer, pdm.PandasMaterializer, nwm.NarwhalsMaterializer):
+        if "_get_columns_for_term" in cls.__dict__:
+            wrap(cls, "_get_columns_for_term", make)
+
+
+# ------------------------------------------------------------------ P5 span conservation (+ scale carried by every scoped term)
+
+
+@installer("P5_span_conservation", MAT)
+def p5(st):
+    from formulaic.materializers.base import FormulaMaterializer
+    from formulaic.materializers.types import ScopedFactor
+
+    depth = [0]
+
+    def make(orig):
+        def w(cls, scoped_terms):
+            scoped_terms = list(scoped_terms)
+            depth[0] += 1
+            try:
+                out = orig(cls, scoped_terms)
+            finally:
+                depth[0] -= 1
+            if depth[0] == 0:
+                def body():
+                    st["evaluations"] += 1
+
+                    def expand(stm):
+                        opts = []
+                        for f in stm.factors:
+                            if f.factor.metadata.spans_intercept and not f.reduced:
+                                opts.append([ScopedFactor(f.factor, reduced=True), None])
+                            else:
+                                opts.append([f])
+                        return [frozenset((x.factor.expr, x.reduced) for x in prod if x is not None) for prod in itertools.product(*opts)]
+
+                    exp_in = [frozenset((x.factor.expr, x.reduced) for x in stm.factors) for stm in scoped_terms]
+                    exp_out = [e for stm in out for e in expand(stm)]
+                    if sorted(map(sorted, exp_in)) != sorted(map(sorted, exp_out)) or len(set(exp_out)) != len(exp_out):
+                        breach("P5_span_conservation", f"_simplify_scoped_terms: {scoped_terms} -> {list(out)} does not span exactly the input without overlap")
+                    scales_in = {stm.scale for stm in scoped_terms}
+                    scales_out = {stm.scale for stm in out}
+                    if len(scales_in) == 1 and scales_out and scales_out != scales_in:
+                        breach("P5_span_conservation", f"_simplify_scoped_terms changed the literal scale: in {scales_in} out {scales_out}")
+
+                guarded(st, body)
+            return out
+
+        return w
+
+    wrap(FormulaMaterializer, "_simplify_scoped_terms", make)
+
+
+# ------------------------------------------------------------------ P6 row conservation
+
+
+@installer("P6_row_conservation", MAT)
+def p6(st):
+    from formulaic.materializers import narwhals as nwm, pandas as pdm
+
+    def make(orig):
+        def w(self, cols, spec, drop_rows):
+            out = orig(self, cols, spec=spec, drop_rows=drop_rows)
+
+            def body():
+                st["evaluations"] += 1
+                exp = self.nrows - len(drop_rows)
+                if out.shape[0] != exp:
+                    breach("P6_row_conservation", f"_combine_columns returned {out.shape[0]} rows; input rows {self.nrows} - dropped {len(drop_rows)} = {exp}")
+                for nm, v in cols:
+                    if v.shape[0] != exp:
+                        breach("P6_row_conservation", f"encoded column {nm!r} has {v.shape[0]} rows, expected {exp}")
+                        break
+
+            guarded(st, body)
+            return out
+
+        return w
+
+    for cls in (pdm.PandasMaterializer, nwm.NarwhalsMaterializer):
+        wrap(cls, "_combine_columns", make)
+
+
+# ------------------------------------------------------------------ P7 state write-once (diagnostic)
+
+
+@installer("P7_state_write_once", {"C04", "C18", "C13", "C12"})
+def p7(st):
+    from formulaic.transforms import TRANSFORMS
+
+    def digest(o):
+        try:
+            return repr(sorted((k, np.asarray(v).tolist() if not isinstance(v, (dict, str)) else repr(v)) for k, v in o.items()))
+        except Exception:  # noqa: BLE001
+            return repr(o)
+
+    def make(name, orig):
+        @functools.wraps(orig)
+        def w(*a, **k):
+            state = k.get("_state")
+            before = digest(state) if isinstance(state, dict) and state else None
+            out = orig(*a, **k)
+            if before is not None:
+                st["evaluations"] += 1
+                if digest(state) != before:
+                    st["state_rewritten"] = st.get("state_rewritten", 0) + 1  # diagnostic only
+            return out
+
+        return w
+
+    for name in ("scale", "center", "poly", "bs", "cr", "cs", "cc", "standardize"):
+        fn = TRANSFORMS.get(name)
+        if fn is not None and hasattr(fn, "__call__"):
+            TRANSFORMS[name] = make(name, fn)
+
+
+# ------------------------------------------------------------------ P8 structure padding
+
+
+@installer("P8_structure_padding", {"C09", "C04", "C18", "C07", "C06"})
+def p8(st):
+    from formulaic.materializers.base import FormulaMaterializer
+    from formulaic.parser.types import Factor
+
+    def make(orig):
+        def w(self, cols, spec, drop_rows):
+            cols = list(cols)
+
+            def body():
+                st["evaluations"] += 1
+                structure = spec.structure
+                for i, col_spec in enumerate(cols):
+                    scoped_cols, target = col_spec[2], structure[i][2]
+                    if len(scoped_cols) == 1 and len(target) > 1:
+                        st["padding_events"] = st.get("padding_events", 0) + 1
+                        for f in col_spec[0].factors:
+                            rec = spec.encoder_state.get(f.expr)
+                            if rec and rec[0] is Factor.Kind.CATEGORICAL:
+                                breach("P8_structure_padding", f"term {col_spec[0]}: one generated column {list(scoped_cols)} copied into the recorded columns {list(target)} of categorical-at-fit factor {f.expr!r}")
+                                return
+
+            guarded(st, body)
+            return orig(self, cols, spec, drop_rows)
+
+        return w
+
+    wrap(FormulaMaterializer, "_enforce_structure", make)
+
+
+# ------------------------------------------------------------------ P9 class invariant on SimpleFormula (icontract)
+
+
+@installer("P9_formula_invariant", {"C19", "C01", "C20", "C10"})
+def p9(st):
+    import icontract
+    from formulaic.formula import SimpleFormula
+
+    def ordering_invariant(self):
+        try:
+            st["evaluations"] += 1
+            order = getattr(self.ordering, "value", self.ordering)
+            terms = list(self)
+            if order in ("degree", "sort"):
+                degs = [t.degree for t in terms]
+                if degs != sorted(degs):
+                    breach("P9_formula_invariant", f"SimpleFormula(ordering={order}) holds terms with degrees {degs}")
+            if order == "sort":
+                keys = [(t.degree, sorted(f.expr for f in t.factors)) for t in terms]
+                if keys != sorted(keys):
+                    breach("P9_formula_invariant", f"SimpleFormula(ordering=sort) is not sorted: {terms}")
+        except Exception:  # noqa: BLE001
+            st["probe_errors"] = st.get("probe_errors", 0) + 1
+        return True  # record-and-continue: never abort the observed code
+
+    class InvariantBroken(Exception):
+        pass
+
+    icontract.invariant(ordering_invariant, error=InvariantBroken)(SimpleFormula)
+
+
+# ------------------------------------------------------------------ P10 aliasing (diagnostic)
+
+
+@installer("P10_spec_aliasing", {"C18", "C04"})
+def p10(st):
+    from formulaic.model_spec import ModelSpec
+
+    def dig(spec):
+        try:
+            return repr((sorted(map(repr, spec.transform_state.items())), sorted(map(repr, spec.encoder_state.items())), repr(spec.formula), bool(spec.structure)))
+        except Exception:  # noqa: BLE001
+            return None
+
+    def make(orig):
+        def w(self, data, *a, **k):
+            before = dig(self)
+            out = orig(self, data, *a, **k)
+            st["evaluations"] += 1
+            if before is not None and dig(self) != before:
+                st["caller_spec_changed"] = st.get("caller_spec_changed", 0) + 1  # diagnostic only
+            return out
+
+        return w
+
+    wrap(ModelSpec, "get_model_matrix", make)
